@@ -10,6 +10,7 @@ import RFV.Model.Validate
 import RFV.Model.Fp
 import RFV.Model.Cache
 import RFV.Model.Decision
+import RFV.Model.Exec
 
 open RFV
 
@@ -139,6 +140,30 @@ def answer (line : String) : String :=
     match n.toNat?, parseTy ty with
     | some n, some ty => fmtExcept ((builtTree planner ty n).map Recipe.text)
     | _, _ => "bad-op"
+  | ["calls", algo, entry, len, a0, a1, a2, a3, b0, b1, b2, b3] =>
+    match (([len, a0, a1, a2, a3, b0, b1, b2, b3].map (fun (x : String) => x.toNat?)).mapM id) with
+    | some [len, a0, a1, a2, a3, b0, b1, b2, b3] =>
+      let s0 : Spec := ⟨a0, a1, a2, a3⟩
+      let s1 : Spec := ⟨b0, b1, b2, b3⟩
+      let al : Option Algo := match algo with
+        | "MixedRadix" => some .mixedRadix | "MixedRadixSmall" => some .mixedRadixSmall
+        | "GoodThomas" => some .goodThomas | "GoodThomasSmall" => some .goodThomasSmall
+        | "Raders" => some .raders | "Bluesteins" => some (.bluesteins len)
+        | "RadixN" => some .radixLike | "Radix4" => some .radixLike | "Radix3" => some .radixLike
+        | _ => none
+      let en : Option EntryKind := match entry with
+        | "inplace" => some .inplace | "oop" => some .oop | "immut" => some .immut | _ => none
+      match al, en with
+      | some al, some en =>
+        let ctorPanic : Bool := match al with
+          | .mixedRadixSmall => (smallAsserts "MixedRadixSmall" s0 s1).toOption.isNone
+          | .goodThomasSmall => (smallAsserts "GoodThomasAlgorithmSmall" s0 s1).toOption.isNone
+          | _ => false
+        if ctorPanic then "CTOR-PANIC" else
+        let adv := advertised al en len s0 s1
+        s!"adv={adv} | " ++ "; ".intercalate ((calls al en len s0 s1 adv).map Call.text)
+      | _, _ => "bad-op"
+    | _ => "bad-op"
   | ["decide", cfa, cfs, mask, ty] =>
     match cfa.toNat?, cfs.toNat?, mask.toNat?, parseTy ty with
     | some cfa, some cfs, some m, some ty =>
